@@ -53,7 +53,7 @@ def main(tier, replay):
                 tier = l.split("tier=")[1].split()[0]
     chk = vlib.Check(PROP, tier, level="proof")
     audit = vlib.lean_gate(chk, PROP)
-    stats = vlib.run_differential(chk, PROP, "c20_mlnorm", tier, compare=compare)
+    stats = vlib.run_differential(chk, PROP, "c20_mlnorm", tier, compare=compare, ctx_prefixes=("cfg", "dpcfg"))
     info = {}
     of = os.path.join(vlib.OUT, "c20_%s.impl.oracle" % tier)
     if os.path.exists(of):
@@ -61,30 +61,47 @@ def main(tier, replay):
             if l.startswith("INFO "):
                 info = dict(kv.split("=") for kv in l.split()[1:])
     vlib.standard_coverage(chk, stats,
-        "real free functions of stir/ML_norm.h (make_fan_data_remove_gaps, set_fan_data_add_gaps, get_fan_info, FanProjData accessors / is_in_data, "
-        "apply_efficiencies / apply_block_norm / apply_geo_norm with apply=true and false, make_fan_sum_data (both overloads), make_block_data, make_geo_data, "
-        "iterate_efficiencies / iterate_block_norm / iterate_geo_norm, KL, multiply_crystal_factors, BinNormalisationPETFromComponents, ML_estimate_component_based_normalisation) on generated cylindrical scanners: no virtual crystals, "
-        "transaxial virtual crystals (type Siemens_mMR), transaxial+axial (type E1080); 2-6 (thorough 2-8) transaxial blocks x 1-4 (1-6) physical crystals, "
-        "1-3 axial blocks x 1-3 crystals, every max ring difference and odd/even numbers of tangential positions; projection data filled with distinct values "
-        "(i*K mod 1000003), factors k/8 (exact in float), Poisson data; plus data the conversion must refuse (view mashing, span 3, TOF). "
-        "One line per operation (per window bin: where its value went / which fan entry it is read from), compared with the Lean model's answer: integers and "
-        "index tuples exactly; float results against the exact rational model value with |impl-exact| <= 4*k*2^-24*|exact|, k = float operations on the longest "
-        "path (2 for apply, fan size x ring differences for a fan sum, detectors x (fan+3) for the in-place efficiency sweep [model at binary64 beyond 9 detectors], "
-        "class size (+4) for block / geometric sums); KL at binary64 with 1e-9*sum(a+b). distinct = distinct operation lines. "
-        "The oracle evaluates the property itself on the implementation: round trip on every window bin, gap value in every gap bin, every fan entry = bin of "
-        "its detector pair via get_bin_for_det_pos_pair, apply then un-apply restores (4*2*2^-24), applied factor = product of the two detectors' efficiencies / "
-        "the factor of the two blocks / equal under a block translation, fan sums, fixed points of the three iterations on data generated from the model, "
-        "dead detector -> efficiency 0, KL over detector pairs non-increasing over 5 efficiency iterations (1e-5 relative); bin efficiency of "
-        "BinNormalisationPETFromComponents = product of the two crystal efficiencies (0 in gaps); ML_estimate_component_based_normalisation end to end on tiny "
-        "scanners (exact and Poisson data, with and without gaps; files under build/out): every eff/geo/block file equals the documented sequence of iterate_* "
-        "steps recomputed from the building blocks, the written efficiencies do not increase the KL distance (while the model in use is symmetric), exact data are fitted. "
+        "real free functions of stir/ML_norm.h on generated cylindrical scanners: no virtual crystals, transaxial virtual crystals (type Siemens_mMR), "
+        "transaxial+axial (type E1080); 2-6 (thorough 2-8) transaxial blocks x 1-4 (1-6) physical crystals, 1-3 axial blocks x 1-3 crystals, every max ring "
+        "difference and odd/even numbers of tangential positions; projection data filled with distinct values (i*K mod 1000003), factors k/8 (exact in float), "
+        "Poisson data; plus data the conversion must refuse (view mashing, span 3, TOF). "
+        "(1) FanProjData family: make_fan_data_remove_gaps, set_fan_data_add_gaps, get_fan_info, accessors / is_in_data, apply_efficiencies / apply_block_norm / "
+        "apply_geo_norm (apply=true,false), make_fan_sum_data (3 overloads, incl. the one without model), make_block_data, make_geo_data, iterate_efficiencies "
+        "(with and WITHOUT model) / iterate_block_norm / iterate_geo_norm, KL. "
+        "(2) DetPairData family (ops dp*): make_det_pair_data (both overloads) and set_det_pair_data on 2-3 (segment, axial position) pairs per segment, "
+        "apply_efficiencies / apply_block_norm / apply_geo_norm on DetPairData (apply=true,false), make_fan_sum_data, make_geo_data, make_block_data, "
+        "iterate_efficiencies / iterate_geo_norm / iterate_block_norm on DetPairData, KL(DetPairData). "
+        "One line per operation (per window bin: where its value went / which fan entry it is read from; per sinogram pair: the whole DetPairData), compared "
+        "with the Lean model's answer: integers, index tuples and copied values exactly (n 0); float results against the exact rational model value with "
+        "|impl-exact| <= 4*k*2^-24*|exact|, k = float operations on the longest path (2 for apply, fan size x ring differences for a fan sum, detectors x (fan+3) "
+        "for the in-place efficiency sweeps [model at binary64 beyond 9 (DetPairData: 8) detectors], class size (+2..+6) for block / geometric sums and ratios); "
+        "KL at binary64 with 1e-9*sum(a+b). distinct = distinct operation lines. "
+        "The oracle evaluates the property itself on the implementation: round trip on every window bin / every bin of the sinogram pair, gap value in every gap "
+        "bin, every fan / DetPairData entry = bin of its detector pair via get_bin_for_det_pos_pair, set_det_pair_data touches no other sinogram, apply then "
+        "un-apply restores (4*2*2^-24), applied factor = product of the two detectors' efficiencies / the factor of the two blocks / equal under a block "
+        "translation and the mirror image, fan sums, fixed points of all iterations (FanProjData, DetPairData, model-free) on data generated from the model, "
+        "model-free iterate_efficiencies / make_fan_sum_data = the versions with a model of ones, dead detector -> efficiency 0, KL over detector pairs "
+        "non-increasing over 4-5 efficiency iterations (1e-5 relative; FanProjData with model, model-free, KL(DetPairData) itself for the DetPairData overload). "
+        "(3) multiply_crystal_factors: on every generated scanner (also with virtual crystals: factors indexed with gaps) against apply_efficiencies after gap "
+        "removal, and on span 1/3 x view mashing 1/2 x non-TOF/TOF (5 bins) x the three scanner types: every bin = global_factor/num_tof * sum over the "
+        "detector pairs that get_bin_for_det_pos_pair maps to it of the product of the two factors. "
+        "(4) bin efficiency of BinNormalisationPETFromComponents = product of the two crystal efficiencies (0 in gaps). "
+        "(5) ML_estimate_component_based_normalisation end to end on tiny scanners (exact and Poisson data, with and without gaps; files under build/out), once "
+        "per combination of do_geo x do_block x do_symmetry_per_block x do_KL on scanners with 2 blocks per bucket (2 x 2 buckets; thorough also 3 blocks per "
+        "bucket): every eff/geo/block file equals the documented sequence of iterate_* steps recomputed from the building blocks (GeoData3D per block or per "
+        "bucket as documented), the written efficiencies do not increase the KL distance (while the model in use is symmetric), exact data are fitted. "
+        "Classes of input on which the property cannot hold are reported with stable keys (KNOWN-CANDIDATE): library KL(FanProjData) counts in-ring LORs twice; "
+        "do_KL=true aborts with boost::bad_format_string; fan with two crystals of one block indexes BlockData3D out of range (asked through the implementation's "
+        "is_in_data, not executed); odd number of transaxial crystals per block (GeoData3D built with tcpb/2: block-translation oracle / fixed point); 1 transaxial "
+        "crystal per block: make_geo_data divides by zero (run in a child process). "
         "Two seed-independent minimal cases are evaluated on every run: the geometric fixed point on 5 rings (regression case of the repaired "
-        "make_geo_data condition, strict) and the known finding kl-descent:library-KL-counts-in-ring-LORs-twice (KNOWN-CANDIDATE).",
+        "make_geo_data condition, strict) and the known finding kl-descent:library-KL-counts-in-ring-LORs-twice.",
         extra=dict(input_distribution=info))
-    chk.assumptions += ["the detector-pair <-> bin map is a parameter of the Lean model (property C01); the harness takes it from the real get_det_pos_pair_for_bin",
-                        "float arithmetic is modelled exactly in Rat (binary64 for the in-place efficiency sweep on more than 9 detectors and for log) and compared with a derived forward bound",
+    chk.assumptions += ["the detector-pair <-> bin map is a parameter of the Lean model (property C01); the harness takes it from the real get_det_pos_pair_for_bin / get_det_num_pair_for_view_tangential_pos_num",
+                        "float arithmetic is modelled exactly in Rat (binary64 for the in-place efficiency sweeps on more than 9 / 8 detectors and for log) and compared with a derived forward bound",
                         "find_max() is modelled for non-negative data; 32-bit overflow not modelled",
-                        "block factors are only exercised when the fan contains no two crystals of one block (otherwise apply_block_norm reads BlockData3D out of range: see report)",
+                        "block factors (FanProjData) are only executed when BlockData3D::is_in_data holds for every entry of the loop nest (otherwise apply_block_norm reads BlockData3D out of range: KNOWN-CANDIDATE block-norm:...)",
+                        "DetPairData: descent of the efficiency iteration, fixed points of iterate_geo_norm / iterate_block_norm and multiply_crystal_factors are oracle-only (no Lean theorem); ML_estimate_component_based_normalisation is compared with a recomputation from the building blocks, not modelled in Lean",
                         "scanners with virtual crystals have 1 virtual crystal per block (hard-wired to the scanner type in Scanner.cxx); the Lean theorems hold for any number"]
     if audit:
         vlib.proof_coverage(chk, audit, "cd lean && lake build StirVerif.C20.Props Driver.C20 && lake env lean ../build/out/Audit_C20.lean")
